@@ -7,8 +7,13 @@ TRUSTED = [
     "Coq 8.16.1 kernel (coqc), vm_compute for case evaluation; no native_compute",
     "hand-written interleaving model props/C07/coq/Model.v (writers, readers, rotate/seal/release/suicide as atomic steps "
     "between the verifhook schedule points; blocking = disabled step), tied to /repo by schedule replay, not verified code",
+    "hand-written file/descriptor layer props/C07/coq/ModelFiles.v (per fraction: descriptors on .docs/.meta/.sdocs/.index, "
+    "the files themselves, which document descriptor the sealed fraction reads from; both values of frac.Config.SkipSortDocs "
+    "and KeepMetaFile), run in lock-step with Model.step and tied to /repo by comparing, after EVERY label of every CSchedF "
+    "schedule, the model's state with /proc/self/fd + stat of the real process and the sealed fraction's docsFile identity",
     "Go harness harness/cmd/hC07 (schedule executor parking the real goroutines at verifhook points, generators, "
-    "canonicalisation of results); /repo/verifhook + the add-only verifhook.At lines (no-ops without the build tag)",
+    "canonicalisation of results, the /proc/self/fd reader); /repo/verifhook + the add-only verifhook.At lines (no-ops "
+    "without the build tag); add-only exports frac/export_verif_c07*.go, fracmanager/export_verif_c07*.go",
     "atomicity of the code BETWEEN two schedule points, data races, Go scheduler, real deadlocks outside the modelled "
     "locks: NOT covered by the proof; free-running stress with per-request assertions is a supporting test only",
 ]
@@ -19,13 +24,25 @@ ASSUME = [
     "retention never deletes a fraction that still has bulks being indexed (suicide step disabled while indexWg > 0)",
     "no nested documents, no duplicate ID inside one bulk (retried bulks = same ID in different bulks are covered)",
     "Model.f_ldocs keeps the whole document per ID-table entry: the ID is what the code stores, the rest is ghost state no step reads",
+    "file layer: Active.Release, frac.Seal, Active.Suicide and Sealed.Suicide are atomic w.r.t. the readers (one schedule step each; "
+    "true concurrency of a fetch with Active.Release is only exercised by the free-running stress, half of whose runs use "
+    "SkipSortDocs=true); only the sealed provider's reads go through the modelled descriptors (the active provider's reads are "
+    "protected by Active.useMu, modelled as the f_rl = 0 guard of release/suicide, not by the descriptor flags); a request "
+    "answered by a live sealed provider with a closed needed descriptor counts as an error (caches are fresh after a seal); "
+    "logged-only errors (double close, removing an already removed file) are not modelled; restart/reload of fractions is C01/C15/C17's subject",
 ]
 RULE = ("fixed witness schedules (sequential, negation mid-bulk, stale block table, hand-over, refused append, range clamp, "
-        "suicided proxy) + random schedules over 1-3 writers x 1-2 bulks x 1-3 docs, 1-3 readers (search of one list entry "
+        "suicided proxy; hand-over with two rotations and fetches before the release / after it through the old and a fresh "
+        "list / after the list replacement / after the second rotation / after retention, in all four SkipSortDocs x "
+        "KeepMetaFile configurations; retention at seal.swapped and of an unsealed fraction in both SkipSortDocs modes) + random "
+        "schedules over 1-3 writers x 1-2 bulks x 1-3 docs, 1-3 readers (search of one list entry "
         "with 9 query shapes incl. NOT/NAND/range, fetch of returned / arbitrary / absent IDs), 0-2 rotations with seal "
-        "steps interleaved, optional retention; every schedule ends with a quiescent sweep (search all + fetch all per "
-        "fraction). non-trivial = a reader was inside a request while an index or seal step ran, or an append was "
-        "refused by a read-only fraction and retried; distinct by input")
+        "steps interleaved, optional retention, each with SkipSortDocs drawn 1/2 and KeepMetaFile 1/3 and the file/descriptor "
+        "state of every fraction observed after every label, plus a gadget that searches + fetches the fraction right after "
+        "the swap / release / replacement step (fresh and stale list); every schedule ends with a quiescent sweep (search all "
+        "+ fetch all per fraction). non-trivial = a reader was inside a request while an index or seal step ran, or an append "
+        "was refused by a read-only fraction and retried, or a fetch found a document through the sealed provider after "
+        "Active.Release; distinct by input")
 
 
 def harness_args(tier, seed, outdir):
